@@ -267,7 +267,9 @@ func c02Seq(a vh.Args, o *vh.Oracle, r *vh.Result, c *c02Case) error {
 		r.Corr()
 		if ans != spansStr(frag) {
 			c.Want = ans
-			r.Fail("corr", "corr:C02/next", "Chunker.Next model and implementation produce different (start,len) sequences", c)
+			// the model of Chunker.Next is PROVED equal to the rule for every input (C02_next_refines_rule), so its output on this
+			// blob is the rule's chunk sequence: a difference is a concrete input on which Chunker.Next departs from the rule
+			r.Fail("predicate", "seq/differs-from-rule", "Chunker.Next's (start,len) sequence on this input differs from the rule's (computed by the extracted model, proved equal to the rule)", c)
 		}
 		if len(blob) <= 3000 { // the rule evaluates a full window hash per position: keep it to small blobs
 			ans, err = o.Call("c02.spec", u(c.Min), u(c.Max), u(uint64(d)), vh.Hex(blob))
@@ -277,7 +279,9 @@ func c02Seq(a vh.Args, o *vh.Oracle, r *vh.Result, c *c02Case) error {
 			r.Corr()
 			if ans != sizesStr(full) {
 				c.Want = ans
-				r.Fail("corr", "corr:C02/rule", "chunk sizes differ from the rolling-hash rule (chunks_spec)", c)
+				// the oracle evaluates the RULE itself (chunk_all: cut at the first position past min whose window hash meets the
+				// discriminator): a difference is a violation of the property on this input, not merely a model mismatch
+				r.Fail("predicate", "seq/differs-from-rule", "chunk sizes differ from the rolling-hash rule evaluated on this input (extracted chunk_all)", c)
 			}
 		}
 	}
@@ -367,7 +371,9 @@ func c02Par(a vh.Args, o *vh.Oracle, r *vh.Result, c *c02Case, attempts int) err
 		r.Corr()
 		if ans != spansStr(seq) {
 			c.Want = ans
-			r.Fail("corr", "corr:C02/next", "Chunker.Next model and implementation produce different (start,len) sequences", c)
+			// the model of Chunker.Next is PROVED equal to the rule for every input (C02_next_refines_rule), so its output on this
+			// blob is the rule's chunk sequence: a difference is a concrete input on which Chunker.Next departs from the rule
+			r.Fail("predicate", "seq/differs-from-rule", "Chunker.Next's (start,len) sequence on this input differs from the rule's (computed by the extracted model, proved equal to the rule)", c)
 		}
 	}
 	return nil
